@@ -176,8 +176,14 @@ def spell_number(rng, v, allowed=("int", "float", "dec", "hex")):
     return '"0x%s"' % hex_case(rng, h)
 
 
-def addr_token(rng, a):
-    return '"0x%s"' % hex_case(rng, a.hex())
+def addr_token(rng, a, loose=False):
+    """An address spelling every tool must take: all lower case, or with the correct EIP-55 checksum. Other letter cases are only
+    produced with loose=True, for callers that tolerate a refusal (a tool may validate the checksum of a mixed-case address; no
+    property obliges it to accept one that fails)."""
+    if loose:
+        return '"0x%s"' % hex_case(rng, a.hex())
+    from .ref import eth
+    return '"%s"' % (eth.eip55(a) if rng.random() < 0.5 else "0x" + a.hex())
 
 
 def tokens_for(rng, tx, spell=("int", "float", "dec", "hex"), to_style=None):
